@@ -1,6 +1,7 @@
 import CookModel.Side.Serde
 import CookModel.Lemmas.Serde
 import CookModel.Lemmas.SerdeAudit
+import CookModel.Lemmas.SerdeMods
 /-
   C15  Recipes survive serialization.
 
@@ -142,6 +143,28 @@ theorem C15_decode_encode_scaled_rat (c : NumCodec Rat) (hc : c.RoundTrips)
     (r : FullRecipe Rat (Value Rat) (Scaled Rat)) (hm : RecipeModsKnown r.recipe) :
     decScaledRecipe c (encScaledRecipe c r) = some { r with data := r.data.normalize } :=
   C15_decode_encode_scaled c hc r (recipeFinite_rat _ valueFinite_rat _) hm (scaledFinite_rat _)
+
+/-- PARTIAL step towards discharging the premise `RecipeModsKnown` for PARSED recipes (the property says "any parsed
+    recipe"; the premise is the only one of `C15_decode_encode_scalable` that is neither the property's own nor a fact
+    about the JSON library).  The two places of the parser and the analysis that COMPUTE modifier bits only produce the
+    five declared flags: (1) `parse_modifiers`, from every parser state and for every token list, returns a set with
+    `bits < 32`; (2) `resolve_reference`, given such a set and an inherit mask of declared flags (the callers pass
+    `HIDDEN | OPT | RECIPE` for ingredients and `HIDDEN | OPT` for cookware), returns such a set (the given one, or the
+    given one joined with the inherited flags and `REF`); (3) such a set survives the `"A | B"` string form.
+    MISSING for the full clause: the sweep showing that every `Ingredient` / `Cookware` stored by the analysis carries
+    either the event's modifiers or the result of `resolve_reference` on them (an invariant of `processEvent` over the
+    event stream of `pullEvents`); see notes/audit-C15.md. -/
+theorem C15_modifier_flags_partial {α : Type} [Arith α] :
+    (∀ (mtoks : List Tok) (pos : Nat) (s : BP α), (parseModifiers (α := α) mtoks pos s).1.flags.val.bits < 32) ∧
+    (∀ (env : Env) (container : String) (inherit : Nat) (existing : List (Str × Modifiers)) (name : Str)
+        (mods : Modifiers) (location modLoc : Span) (s : Col α), mods.bits < 32 → inherit < 32 →
+        (resolveReference env container inherit existing name mods location modLoc s).1.1.bits < 32) ∧
+    (Modifiers.HIDDEN ||| Modifiers.OPT ||| Modifiers.RECIPE < 32 ∧ Modifiers.HIDDEN ||| Modifiers.OPT < 32) ∧
+    (∀ m : Modifiers, m.bits < 32 → decMods (encMods m) = some m) :=
+  ⟨fun mtoks pos s => audit_parseModifiers_bits_run mtoks pos s,
+   fun env container inherit existing name mods location modLoc s hm hi =>
+     audit_resolveReference_bits env container inherit existing name mods location modLoc s hm hi,
+   ⟨by decide, by decide⟩, fun m h => decMods_encMods m h⟩
 
 /-! Non-vacuity: a codec over ℚ that round-trips (unary spelling of numerator and denominator),
     and a recipe that satisfies the hypotheses. -/
